@@ -209,7 +209,8 @@ def _Tuuid_validate(key):
     def _uvalid(cls, v):
         try:
             UUID(**{key:v})
-        except ValueError:
+        except (ValueError, TypeError):
+            # TypeError: None, or a value of the wrong kind
             return False
         return True
     return _uvalid
